@@ -11,13 +11,14 @@ func y() { rt.Yield() }
 type Int32 struct{ v int32 }
 
 func (x *Int32) Load() int32           { y(); return x.v }
-func (x *Int32) Store(val int32)       { y(); x.v = val }
-func (x *Int32) Swap(new int32) int32  { y(); old := x.v; x.v = new; return old }
+func (x *Int32) Store(val int32)       { y(); defer y(); x.v = val }
+func (x *Int32) Swap(new int32) int32  { y(); defer y(); old := x.v; x.v = new; return old }
 func (x *Int32) Add(delta int32) int32 { y(); x.v += delta; return x.v }
 func (x *Int32) And(mask int32) int32  { y(); old := x.v; x.v &= mask; return old }
 func (x *Int32) Or(mask int32) int32   { y(); old := x.v; x.v |= mask; return old }
 func (x *Int32) CompareAndSwap(old, new int32) bool {
 	y()
+	defer y()
 	if x.v == old {
 		x.v = new
 		return true
@@ -26,11 +27,12 @@ func (x *Int32) CompareAndSwap(old, new int32) bool {
 }
 
 func LoadInt32(addr *int32) int32             { y(); return *addr }
-func StoreInt32(addr *int32, val int32)       { y(); *addr = val }
+func StoreInt32(addr *int32, val int32)       { y(); defer y(); *addr = val }
 func AddInt32(addr *int32, delta int32) int32 { y(); *addr += delta; return *addr }
-func SwapInt32(addr *int32, new int32) int32  { y(); old := *addr; *addr = new; return old }
+func SwapInt32(addr *int32, new int32) int32  { y(); defer y(); old := *addr; *addr = new; return old }
 func CompareAndSwapInt32(addr *int32, old, new int32) bool {
 	y()
+	defer y()
 	if *addr == old {
 		*addr = new
 		return true
@@ -42,13 +44,14 @@ func CompareAndSwapInt32(addr *int32, old, new int32) bool {
 type Int64 struct{ v int64 }
 
 func (x *Int64) Load() int64           { y(); return x.v }
-func (x *Int64) Store(val int64)       { y(); x.v = val }
-func (x *Int64) Swap(new int64) int64  { y(); old := x.v; x.v = new; return old }
+func (x *Int64) Store(val int64)       { y(); defer y(); x.v = val }
+func (x *Int64) Swap(new int64) int64  { y(); defer y(); old := x.v; x.v = new; return old }
 func (x *Int64) Add(delta int64) int64 { y(); x.v += delta; return x.v }
 func (x *Int64) And(mask int64) int64  { y(); old := x.v; x.v &= mask; return old }
 func (x *Int64) Or(mask int64) int64   { y(); old := x.v; x.v |= mask; return old }
 func (x *Int64) CompareAndSwap(old, new int64) bool {
 	y()
+	defer y()
 	if x.v == old {
 		x.v = new
 		return true
@@ -57,11 +60,12 @@ func (x *Int64) CompareAndSwap(old, new int64) bool {
 }
 
 func LoadInt64(addr *int64) int64             { y(); return *addr }
-func StoreInt64(addr *int64, val int64)       { y(); *addr = val }
+func StoreInt64(addr *int64, val int64)       { y(); defer y(); *addr = val }
 func AddInt64(addr *int64, delta int64) int64 { y(); *addr += delta; return *addr }
-func SwapInt64(addr *int64, new int64) int64  { y(); old := *addr; *addr = new; return old }
+func SwapInt64(addr *int64, new int64) int64  { y(); defer y(); old := *addr; *addr = new; return old }
 func CompareAndSwapInt64(addr *int64, old, new int64) bool {
 	y()
+	defer y()
 	if *addr == old {
 		*addr = new
 		return true
@@ -73,13 +77,14 @@ func CompareAndSwapInt64(addr *int64, old, new int64) bool {
 type Uint32 struct{ v uint32 }
 
 func (x *Uint32) Load() uint32            { y(); return x.v }
-func (x *Uint32) Store(val uint32)        { y(); x.v = val }
-func (x *Uint32) Swap(new uint32) uint32  { y(); old := x.v; x.v = new; return old }
+func (x *Uint32) Store(val uint32)        { y(); defer y(); x.v = val }
+func (x *Uint32) Swap(new uint32) uint32  { y(); defer y(); old := x.v; x.v = new; return old }
 func (x *Uint32) Add(delta uint32) uint32 { y(); x.v += delta; return x.v }
 func (x *Uint32) And(mask uint32) uint32  { y(); old := x.v; x.v &= mask; return old }
 func (x *Uint32) Or(mask uint32) uint32   { y(); old := x.v; x.v |= mask; return old }
 func (x *Uint32) CompareAndSwap(old, new uint32) bool {
 	y()
+	defer y()
 	if x.v == old {
 		x.v = new
 		return true
@@ -88,11 +93,18 @@ func (x *Uint32) CompareAndSwap(old, new uint32) bool {
 }
 
 func LoadUint32(addr *uint32) uint32              { y(); return *addr }
-func StoreUint32(addr *uint32, val uint32)        { y(); *addr = val }
+func StoreUint32(addr *uint32, val uint32)        { y(); defer y(); *addr = val }
 func AddUint32(addr *uint32, delta uint32) uint32 { y(); *addr += delta; return *addr }
-func SwapUint32(addr *uint32, new uint32) uint32  { y(); old := *addr; *addr = new; return old }
+func SwapUint32(addr *uint32, new uint32) uint32 {
+	y()
+	defer y()
+	old := *addr
+	*addr = new
+	return old
+}
 func CompareAndSwapUint32(addr *uint32, old, new uint32) bool {
 	y()
+	defer y()
 	if *addr == old {
 		*addr = new
 		return true
@@ -104,13 +116,14 @@ func CompareAndSwapUint32(addr *uint32, old, new uint32) bool {
 type Uint64 struct{ v uint64 }
 
 func (x *Uint64) Load() uint64            { y(); return x.v }
-func (x *Uint64) Store(val uint64)        { y(); x.v = val }
-func (x *Uint64) Swap(new uint64) uint64  { y(); old := x.v; x.v = new; return old }
+func (x *Uint64) Store(val uint64)        { y(); defer y(); x.v = val }
+func (x *Uint64) Swap(new uint64) uint64  { y(); defer y(); old := x.v; x.v = new; return old }
 func (x *Uint64) Add(delta uint64) uint64 { y(); x.v += delta; return x.v }
 func (x *Uint64) And(mask uint64) uint64  { y(); old := x.v; x.v &= mask; return old }
 func (x *Uint64) Or(mask uint64) uint64   { y(); old := x.v; x.v |= mask; return old }
 func (x *Uint64) CompareAndSwap(old, new uint64) bool {
 	y()
+	defer y()
 	if x.v == old {
 		x.v = new
 		return true
@@ -119,11 +132,18 @@ func (x *Uint64) CompareAndSwap(old, new uint64) bool {
 }
 
 func LoadUint64(addr *uint64) uint64              { y(); return *addr }
-func StoreUint64(addr *uint64, val uint64)        { y(); *addr = val }
+func StoreUint64(addr *uint64, val uint64)        { y(); defer y(); *addr = val }
 func AddUint64(addr *uint64, delta uint64) uint64 { y(); *addr += delta; return *addr }
-func SwapUint64(addr *uint64, new uint64) uint64  { y(); old := *addr; *addr = new; return old }
+func SwapUint64(addr *uint64, new uint64) uint64 {
+	y()
+	defer y()
+	old := *addr
+	*addr = new
+	return old
+}
 func CompareAndSwapUint64(addr *uint64, old, new uint64) bool {
 	y()
+	defer y()
 	if *addr == old {
 		*addr = new
 		return true
@@ -135,13 +155,14 @@ func CompareAndSwapUint64(addr *uint64, old, new uint64) bool {
 type Uintptr struct{ v uintptr }
 
 func (x *Uintptr) Load() uintptr             { y(); return x.v }
-func (x *Uintptr) Store(val uintptr)         { y(); x.v = val }
-func (x *Uintptr) Swap(new uintptr) uintptr  { y(); old := x.v; x.v = new; return old }
+func (x *Uintptr) Store(val uintptr)         { y(); defer y(); x.v = val }
+func (x *Uintptr) Swap(new uintptr) uintptr  { y(); defer y(); old := x.v; x.v = new; return old }
 func (x *Uintptr) Add(delta uintptr) uintptr { y(); x.v += delta; return x.v }
 func (x *Uintptr) And(mask uintptr) uintptr  { y(); old := x.v; x.v &= mask; return old }
 func (x *Uintptr) Or(mask uintptr) uintptr   { y(); old := x.v; x.v |= mask; return old }
 func (x *Uintptr) CompareAndSwap(old, new uintptr) bool {
 	y()
+	defer y()
 	if x.v == old {
 		x.v = new
 		return true
@@ -150,11 +171,18 @@ func (x *Uintptr) CompareAndSwap(old, new uintptr) bool {
 }
 
 func LoadUintptr(addr *uintptr) uintptr               { y(); return *addr }
-func StoreUintptr(addr *uintptr, val uintptr)         { y(); *addr = val }
+func StoreUintptr(addr *uintptr, val uintptr)         { y(); defer y(); *addr = val }
 func AddUintptr(addr *uintptr, delta uintptr) uintptr { y(); *addr += delta; return *addr }
-func SwapUintptr(addr *uintptr, new uintptr) uintptr  { y(); old := *addr; *addr = new; return old }
+func SwapUintptr(addr *uintptr, new uintptr) uintptr {
+	y()
+	defer y()
+	old := *addr
+	*addr = new
+	return old
+}
 func CompareAndSwapUintptr(addr *uintptr, old, new uintptr) bool {
 	y()
+	defer y()
 	if *addr == old {
 		*addr = new
 		return true
@@ -166,10 +194,11 @@ func CompareAndSwapUintptr(addr *uintptr, old, new uintptr) bool {
 type Bool struct{ v bool }
 
 func (x *Bool) Load() bool         { y(); return x.v }
-func (x *Bool) Store(val bool)     { y(); x.v = val }
-func (x *Bool) Swap(new bool) bool { y(); old := x.v; x.v = new; return old }
+func (x *Bool) Store(val bool)     { y(); defer y(); x.v = val }
+func (x *Bool) Swap(new bool) bool { y(); defer y(); old := x.v; x.v = new; return old }
 func (x *Bool) CompareAndSwap(old, new bool) bool {
 	y()
+	defer y()
 	if x.v == old {
 		x.v = new
 		return true
@@ -181,10 +210,11 @@ func (x *Bool) CompareAndSwap(old, new bool) bool {
 type Pointer[T any] struct{ p *T }
 
 func (x *Pointer[T]) Load() *T       { y(); return x.p }
-func (x *Pointer[T]) Store(val *T)   { y(); x.p = val }
-func (x *Pointer[T]) Swap(new *T) *T { y(); old := x.p; x.p = new; return old }
+func (x *Pointer[T]) Store(val *T)   { y(); defer y(); x.p = val }
+func (x *Pointer[T]) Swap(new *T) *T { y(); defer y(); old := x.p; x.p = new; return old }
 func (x *Pointer[T]) CompareAndSwap(old, new *T) bool {
 	y()
+	defer y()
 	if x.p == old {
 		x.p = new
 		return true
@@ -202,10 +232,12 @@ func (x *Value) Store(val any) {
 		panic("sync/atomic: store of nil value into Value")
 	}
 	x.v = val
+	y()
 }
-func (x *Value) Swap(new any) any { y(); old := x.v; x.v = new; return old }
+func (x *Value) Swap(new any) any { y(); defer y(); old := x.v; x.v = new; return old }
 func (x *Value) CompareAndSwap(old, new any) bool {
 	y()
+	defer y()
 	if x.v == old {
 		x.v = new
 		return true
